@@ -62,6 +62,7 @@ def run(ctx):
     return verif.finish(ctx, "exploration", cov, [
         "Fn_TreeEnc.tla decides: which insertions a strictly name-sorted tree admits (greedy strictly-increasing filter over name ranks), decoded tree = admitted entries in order with no differing field, one single byte string for repeated encodings / re-encoding of the decoded entries / every completion schedule of the archiver's tree saver; TLC evaluates RecOK on every record and checks the admission model on all sequences of length <= 4 over 3 names",
         "byte fidelity is abstracted by the Go driver: name ranks by bytes.Compare, field-by-field comparison of decoded vs encoded entries (nil and empty slices/maps equal, generic attribute values compared as JSON values, times as instant + zone offset), byte strings as tokens",
-        "premise of the statement kept by the generator: timestamps with years 0..9999 in their own zone and whole-minute zone offsets; user/group/error strings and extended attribute names are valid UTF-8 (only names and link targets are promised for arbitrary bytes); the empty name is not inserted into trees",
+        "premise of the statement kept by the generator: timestamps with years 0..9999 in their own zone and whole-minute zone offsets; user/group/error strings and extended attribute names are valid UTF-8 (only names and link targets are promised for arbitrary bytes)",
+        "boundary names (the empty name = least byte string, \\x00, \\x00\\x00, single punctuation bytes, 0x7f/0x80/0xff, a 64 KiB name) are inserted in FIRST position with 0..5 further entries and in all insertion sequences of length <= 4 over {'', \\x00, a, \\x00\\x00}; the statement does not say whether an entry with an empty name is admissible, so the spec accepts both readings (never admitted, as restic's builder does / admitted as the least name in first position) and demands in both that the encoding decodes to exactly the admitted entries",
         "schedules = order in which the entries' futures complete, with and without a pause between completions, 1/2/4 tree workers; the Go scheduler itself is not controlled",
     ])
